@@ -156,10 +156,10 @@ func parseDirs(f []byte) (ds []dirSpec, ok bool) {
 
 // supported mirrors the domain on which fmt_dir is defined (Some): the harness drops the rest.
 func supported(d dirSpec, a fmtArg) bool {
-	if strings.ContainsRune("gGq", rune(d.verb)) {
+	if strings.ContainsRune("q", rune(d.verb)) {
 		return false // defined by lstrlib, not modelled
 	}
-	if !strings.ContainsRune("dicuxXoeEfs", rune(d.verb)) {
+	if !strings.ContainsRune("dicuxXoeEfgGs", rune(d.verb)) {
 		return true // not a conversion of lstrlib: the call must raise 'invalid option'
 	}
 	if a.K == "str" {
@@ -212,7 +212,7 @@ func runFormat(w *lib.Writer, c fmtIn) {
 			w.Meta.Discarded++
 			return
 		}
-		if i >= len(c.Args) && strings.ContainsRune("gGq", rune(d.verb)) {
+		if i >= len(c.Args) && strings.ContainsRune("q", rune(d.verb)) {
 			w.Meta.Discarded++
 			return
 		}
@@ -372,7 +372,7 @@ func argsFor(verb byte, r *lib.Rand, nrand int) []fmtArg {
 		for i := 0; i < nrand; i++ {
 			out = append(out, numArg(float64(r.Intn(256))))
 		}
-	case 'e', 'E', 'f':
+	case 'e', 'E', 'f', 'g', 'G':
 		for _, v := range floatPool {
 			out = append(out, numArg(v))
 		}
@@ -416,6 +416,8 @@ func fmtCorpus(w *lib.Writer) {
 		{F: h("%+x|% x|%+o|% X|%+5x|%+#x"), Args: []fmtArg{n(255), n(255), n(8), n(255), n(255), n(255)}}, // +/space on unsigned (fixed)
 		{F: h("%#.0x|%#5.0o|%+5.0d|%-+5.0d|"), Args: []fmtArg{n(0), n(0), n(0), n(0)}},
 		{F: h("%10f|%-10E|%+f|% e|%010f|%+010f"), Args: []fmtArg{n(math.Inf(1)), n(math.Inf(-1)), n(math.NaN()), n(math.Inf(1)), n(math.Inf(-1)), n(math.NaN())}},
+		{F: h("%g|%g|%10g|%G|%g|%g|%g|%#g|%.0g|%.3g|%g|%g|%+g|%010g"), Args: []fmtArg{n(123456.789), n(1.0 / 3), n(2.0 / 3), n(1e-10), n(9999995), n(100000), n(1e6), n(1.5), n(2.5), n(1234.5), n(0), n(math.Copysign(0, -1)), n(1), n(0.0001)}}, // %g default precision 6 (fixed)
+		{F: h("%g|%G|%g|%.17g|%.1g|%#.3g"), Args: []fmtArg{n(math.Inf(1)), n(math.NaN()), n(5e-324), n(0.1), n(0.95), n(100)}},
 		{F: h("%u|%5u|%-5u|%05u|%.3u|%u"), Args: []fmtArg{n(5), n(42), n(42), n(42), n(42), n(-1)}}, // %u (fixed)
 		{F: h("%x|%o|%u"), Args: []fmtArg{n(1<<63 + 1<<62), n(1 << 63), n(18446744073709549568)}},        // [2^63,2^64) (fixed)
 		{F: h("%b"), Args: []fmtArg{n(5)}}, {F: h("%v"), Args: []fmtArg{n(5)}}, {F: h("%T"), Args: []fmtArg{n(5)}}, // invalid options raise (fixed)
@@ -458,7 +460,7 @@ func cDefinedFlags(d dirSpec) bool {
 }
 
 func genFormat(w *lib.Writer, r *lib.Rand, tier string) {
-	verbs := []byte("dicuxXoeEfs")
+	verbs := []byte("dicuxXoeEfgGs")
 	// single directives: flag subsets x widths x precisions x verbs, each with arguments from its pool
 	perDir := 1
 	keepPct := 14
@@ -497,7 +499,7 @@ func genFormat(w *lib.Writer, r *lib.Rand, tier string) {
 		for _, a := range pools[v] {
 			ds := []string{"%" + string(v)}
 			switch v {
-			case 'e', 'E', 'f':
+			case 'e', 'E', 'f', 'g', 'G':
 				ds = append(ds, "%.0"+string(v), "%.3"+string(v), "%.17"+string(v), "%+12.1"+string(v), "%#.0"+string(v))
 			case 'd', 'i':
 				ds = append(ds, "%+d", "%05d", "%-12d|", "%.3d")
